@@ -646,7 +646,7 @@ func checkMain(prop, tier string) int {
 				stable = "0/1"
 			}
 		}
-		lines = append(lines, fmt.Sprintf("VIOLATION property=%s replay=%s signature=%q runs=%d replay_stable=%s detail=%q", prop, rp, sig, len(si.idx), stable, si.detail))
+		lines = append(lines, fmt.Sprintf("VIOLATION property=%s replay=%s signature=%q runs=%d first_idx=%d replay_stable=%s detail=%q", prop, rp, sig, len(si.idx), si.idx[0], stable, si.detail))
 	}
 	for _, l := range lines {
 		fmt.Println(l)
@@ -850,6 +850,10 @@ func replayMain(path string) int {
 	defer b.cleanup()
 	// VERIF_REPLAY_OUT: debugging aid, writes the re-executed run (plan, verdict, history) to that file
 	o, cs, st := runPlan(b, "replay", rf.Property, rf.Plan, rf.Sig, os.Getenv("VERIF_REPLAY_OUT"), 0)
+	if o != nil && len(o.Hist) > 0 && os.Getenv("VERIF_REPLAY_OUT") != "" {
+		// VERIF_HIST=1: canonical history and the driver's decision trace next to the re-executed run
+		os.WriteFile(os.Getenv("VERIF_REPLAY_OUT")+".trace", []byte(strings.Join(o.Hist, "\n")+"\n"), 0644)
+	}
 	if o != nil {
 		fmt.Printf("replay %s: canon=%s (recorded %s) violations=%d\n", path, o.Canon, rf.Canon, len(o.Verdict.Violations))
 		for _, v := range o.Verdict.Violations {
@@ -978,5 +982,9 @@ func detdiff(args []string) int {
 		}
 	}
 	fmt.Println("canons:", canons)
+	if out := os.Getenv("VERIF_REPLAY_OUT"); out != "" && first != nil {
+		jb, _ := json.MarshalIndent(first, "", " ")
+		os.WriteFile(out, jb, 0644)
+	}
 	return 0
 }
